@@ -30,12 +30,13 @@ CASES = {"quick": 1200, "thorough": 8000}
 FUZZ_RUNS = {"thorough": 15000}     # coverage-guided leg, 8 processes (vlib/fuzz.py)
 
 KEYS = ["a", "b", "name", "é", "x y", 'q"k', "items", "self", "back\\slash", "nrow",
-        "", "ab", "na", "type", "properties", "features", "id", "bbox"]
+        "", "ab", "na", "type", "properties", "features", "id", "bbox", "k, v", "k: v"]
 TYPES = ["bool", "int", "float", "str", "num"]        # num: JSON integers and non-integral numbers under one key
 VALS = {
     "bool": [True, False], "int": [0, 1, -7, 2**53 - 1, -2**40], "float": [0.5, -1.25, 1e300, 2.0, -0.0],
     "num": [3, 12, 7.25, 3.5, 0, -1, 1e3],
-    "str": ["", "a", "é", 'q"q', "l\nm", "日本", " ", "p\u2028q", "n\u0085 x", "s\u2029"],
+    "str": ["", "a", "é", 'q"q', "l\nm", "日本", " ", "p\u2028q", "n\u0085 x", "s\u2029",
+            "Helsinki, Finland", "note: x", ", ", ": "],          # the separators of JSON text inside a string are characters
 }
 TOP_KEYS = ["name", "crs", 'we"ird', "back\\slash", "ünï", "bbox", "x y", "items", "tab\there", "ls\u2028x",
             # names contained in / containing the names the format itself uses
@@ -43,7 +44,7 @@ TOP_KEYS = ["name", "crs", 'we"ird', "back\\slash", "ünï", "bbox", "x y", "ite
 
 _json_value = st.recursive(
     st.one_of(st.none(), st.booleans(), st.integers(-2**53, 2**53), st.sampled_from([0.5, -1.5, 1e10]),
-              st.text(alphabet='ab"\\é ', max_size=4)),
+              st.text(alphabet='ab"\\é ,:', max_size=4)),
     lambda ch: st.one_of(st.lists(ch, max_size=3), st.dictionaries(st.sampled_from(["k", 'q"', "é"]), ch, max_size=2)),
     max_leaves=5)
 
@@ -86,6 +87,8 @@ def _plan(draw, max_feat):
         repeat = draw(st.sampled_from([999, 1000, 1001, 2001, 2500]))
     return {"failed_write": draw(st.sampled_from([None, None, None, "directory", "codec", "ascii"])), "repeat": repeat, "keys": keys, "types": types, "features": feats, "top": top,
             "indent": draw(st.sampled_from([None, 0, 2, 4, "default"])),
+            # where the "type" member of the collection sits in the file that is read: member order is free in JSON
+            "type_at": draw(st.sampled_from(["first", "first", "last", "after_long_member", "after_features"])),
             "suffix": draw(st.sampled_from(["", "", ".gz", ".bz2", ".xz"]))}
 
 
@@ -182,9 +185,16 @@ def check(plan, ctx):
         plan = dict(plan, features=[base[i % len(base)] for i in range(plan["repeat"])])
         ctx.cls("collection_of_999_features_or_more")
     feats = plan["features"]
-    doc = {"type": "FeatureCollection"}
-    doc.update(plan["top"])
-    doc["features"] = feats
+    at = plan.get("type_at", "first")
+    if at == "after_long_member":
+        plan = dict(plan, top={"pad": "x" * 1500, **plan["top"]})
+    if at == "first":
+        doc = {"type": "FeatureCollection", **plan["top"], "features": feats}
+    elif at == "after_features":
+        doc = {"features": feats, "type": "FeatureCollection", **plan["top"]}
+    else:
+        doc = {**plan["top"], "features": feats, "type": "FeatureCollection"}
+    ctx.cls("type_member_" + at)
     src = ctx.path("in.geojson")
     with open(src, "w", encoding="utf-8") as f:
         json.dump(doc, f, ensure_ascii=False)
